@@ -1,0 +1,9 @@
+//go:build !verif
+
+package packets
+
+import "net/netip"
+
+func verifSink(netip.Addr) (Sink, bool, error) { return nil, false, nil }
+
+func verifSource() (Source, bool, error) { return nil, false, nil }
